@@ -68,6 +68,10 @@ def frames(lvals, rvals, pres, pad=0):
     R = pd.DataFrame({'q': pd.Series(['w%d' % i for i in range(m)], dtype=object),
                       'rk': [10 + i for i in range(m)], 's': pd.Series(rv, dtype=object)})
     if pres.index == 'dup':
+        # rows stored in descending key order (keys are not sorted in general)
+        L = L.iloc[::-1].reset_index(drop=True)
+        R = R.iloc[::-1].reset_index(drop=True)
+    if pres.index == 'dup':
         L.index = [i % 2 for i in range(n)]       # repeated row labels 0,1,0,... (as after pd.concat)
         R.index = [5] * m
     elif pres.index != 'range':
